@@ -53,6 +53,10 @@ func (rt *runtime) newRegExpObject(pattern string, flags string) *object {
 
 	re2pattern, err := parser.TransformRegExp(pattern)
 	if err != nil {
+		if re2pattern == "" {
+			// Not a pattern at all; otherwise it is one that re2 cannot do (lookahead, backreference).
+			panic(rt.panicSyntaxError("Invalid regular expression: %s", err.Error()))
+		}
 		panic(rt.panicTypeError("Invalid regular expression: %s", err.Error()))
 	}
 	if len(re2flags) > 0 {
